@@ -1,6 +1,7 @@
 package workers
 
 import (
+	"os"
 	"bytes"
 	"context"
 	"fmt"
@@ -29,6 +30,9 @@ func c12RoundTrip(r *vf.Run, t *testing.T, id string, rng *rand.Rand) {
 	if rng.Intn(150) == 0 { // rare: on the unchanged tree every such case reproduces F-C12-10 and costs a real-time watchdog
 		kind = "wedged-writer"
 	}
+	if os.Getenv("VERIF_C12_REDIAL") != "" || rng.Intn(150) == 0 { // rare for the same reason: F-C12-14, one real-time watchdog per case
+		kind = "redial-black-hole"
+	}
 	n := 1 + rng.Intn(5)
 	maxResp := time.Duration(1+rng.Intn(5)) * time.Second
 	replay := map[string]any{"level": "roundtrip", "kind": kind, "callers": n, "max_response_time_s": maxResp.Seconds()}
@@ -38,6 +42,10 @@ func c12RoundTrip(r *vf.Run, t *testing.T, id string, rng *rand.Rand) {
 		// input-only trigger of known finding F-C12-10: the peer stops reading while a request body is being written
 		triggers = []string{"client.peerStopsReadingWhileRequestBodyIsBeingWritten"}
 	}
+	if kind == "redial-black-hole" {
+		// input-only trigger of known finding F-C12-14: the connection is lost and the host no longer answers a dial
+		triggers = []string{"client.hostGoesDarkAfterConnectionLoss"}
+	}
 	fail := func(rule, detail string) {
 		if !failed {
 			r.Fail("C12."+rule, id, detail, triggers, replay)
@@ -45,7 +53,7 @@ func c12RoundTrip(r *vf.Run, t *testing.T, id string, rng *rand.Rand) {
 		failed = true
 	}
 	watchdog := 40 * time.Second
-	if kind == "wedged-writer" {
+	if kind == "wedged-writer" || kind == "redial-black-hole" {
 		watchdog = 8 * time.Second
 	}
 	type call struct {
@@ -165,6 +173,20 @@ func c12RoundTrip(r *vf.Run, t *testing.T, id string, rng *rand.Rand) {
 		case "close-under-load":
 			time.Sleep(time.Duration(rng.Intn(int(maxResp))))
 			go env.Client.Close()
+		case "redial-black-hole":
+			// the connection is lost with requests in flight, and the host has gone dark: whatever the client dials from now
+			// on is accepted and never answered (no TLS handshake, no SETTINGS). More requests arrive at that moment.
+			env.SetHangDial(env.Dials() + 1)
+			if rng.Intn(2) == 0 {
+				c0.Raw.Close()
+			} else {
+				c0.Raw.Reset()
+			}
+			for i := 0; i < 1+rng.Intn(3); i++ {
+				c := &call{tag: fmt.Sprintf("%s.late%d", id, i), res: &fasthttp.Response{}}
+				calls = append(calls, c)
+				launch(c)
+			}
 		}
 		rt.Wait()
 		// the deadline: every RoundTrip has returned by MaxResponseTime (+1 virtual second for the retry on a fresh connection)
@@ -268,6 +290,8 @@ func c12RoundTrip(r *vf.Run, t *testing.T, id string, rng *rand.Rand) {
 	switch {
 	case res.TimedOut && kind == "wedged-writer" && strings.Contains(strings.Join(res.MutexStuck, "\n"), "(*Ctx).takeBack"):
 		fail("roundtrip-outlives-timeout", "kind wedged-writer: MaxResponseTime has passed and RoundTrip is waiting in takeBack for the request's Ctx, which the write loop holds while it sits in a transport Write the peer never reads (no write deadline, and the ping check runs on the same loop):\n"+strings.Join(res.MutexStuck, "\n"))
+	case res.TimedOut && kind == "redial-black-hole" && strings.Contains(strings.Join(res.MutexStuck, "\n"), "(*Client).pickConn") && strings.Contains(strings.Join(res.Others, "\n"), "(*Dialer).tryDial"):
+		fail("roundtrip-outlives-timeout", "kind redial-black-hole: RoundTrip waits in pickConn for the client's lock, before its timer is even armed; the lock is held by the dial of a replacement connection (made from inside Close of the lost one, or by another RoundTrip), and that dial has no time limit: TCP connect, TLS handshake and the wait for the server's SETTINGS can each last for ever against a host that accepts and never answers:\n"+strings.Join(res.MutexStuck, "\n")+"\n"+strings.Join(res.Others, "\n"))
 	case res.TimedOut && len(res.MutexStuck) > 0:
 		fail("deadlock", "kind "+kind+": the bubble never became quiescent and these goroutines of the client were waiting for a mutex when the watchdog fired:\n"+strings.Join(res.MutexStuck, "\n"))
 	case res.TimedOut:
